@@ -170,6 +170,20 @@ func c33Pick(rt *rapid.T, label string, weights []int) int {
 
 var c33CounterRuntime = []byte{ep.PUSH0, ep.SLOAD, ep.PUSH1, 1, ep.ADD, ep.DUP1, ep.PUSH0, ep.SSTORE, ep.PUSH0, ep.MSTORE, ep.PUSH1, 32, ep.PUSH0, ep.LOG0, ep.STOP}
 
+// c33Factory is a helper contract this file adds to the genesis allocation: every call
+// runs CREATE2(value=CALLVALUE, salt=0, initcode="ORIGIN SELFDESTRUCT"), i.e. creates
+// the account c33FactoryChild and destroys it in the same transaction, sweeping its
+// whole balance (endowment plus anything it held before) to the transaction sender.
+// Together with a transaction that pays c33FactoryChild beforehand this yields an
+// account that exists in the middle of the block and is gone (empty, to be deleted
+// from the trie) at its end.
+var (
+	c33Factory        = common.HexToAddress("0xfac7000000000000000000000000000000000033")
+	c33FactoryInit    = []byte{0x32, 0xff} // ORIGIN SELFDESTRUCT
+	c33FactoryRuntime = []byte{ep.PUSH2, 0x32, 0xff, ep.PUSH0, ep.MSTORE, ep.PUSH0, ep.PUSH1, 2, ep.PUSH1, 30, 0x34 /*CALLVALUE*/, 0xf5 /*CREATE2*/, 0x50 /*POP*/, ep.STOP}
+	c33FactoryChild   = crypto.CreateAddress2(c33Factory, [32]byte{}, crypto.Keccak256(c33FactoryInit))
+)
+
 type c33CreateCall struct {
 	create, call *worldgen.TxPlan
 }
@@ -195,9 +209,34 @@ func c33Engineer(rt *rapid.T, w *worldgen.World) []string {
 		last.Txs = c33Insert(last.Txs, pos, p)
 		return pos
 	}
+	w.Genesis.Alloc[c33Factory] = types.Account{Nonce: 1, Code: c33FactoryRuntime, Balance: new(big.Int)}
 	n := c33Pick(rt, "eng-count", []int{1, 3, 3, 2})
 	for k := 0; k < n; k++ {
-		switch c33Pick(rt, "eng-kind", []int{3, 3, 3, 3}) {
+		switch c33Pick(rt, "eng-kind", []int{3, 3, 3, 3, 2}) {
+		case 4: // account paid by tx i, created and destroyed (swept) by tx j, maybe paid again by tx k
+			pay := c33BasePlan(rt, w)
+			pay.TargetClass, pay.To = "factory-child", addr(c33FactoryChild)
+			pay.ValClass = worldgen.ValOne + ep.Uniform(rt, "eng-prefund-val", 2)
+			pay.GasClass = worldgen.Gas250k
+			pos := -1
+			if ep.Uniform(rt, "eng-prefund", 4) != 0 {
+				pos = insertAfter(pay, 0)
+			}
+			for c := 1 + ep.Uniform(rt, "eng-factory-calls", 2); c > 0; c-- {
+				call := c33BasePlan(rt, w)
+				call.TargetClass, call.To = "factory", addr(c33Factory)
+				call.ValClass = c33Pick(rt, "eng-factory-val", []int{1, 1, 2})
+				call.GasClass = worldgen.Gas1M
+				pos = insertAfter(call, pos+1)
+			}
+			if ep.Uniform(rt, "eng-repay", 3) == 0 {
+				again := c33BasePlan(rt, w)
+				again.TargetClass, again.To = "factory-child", addr(c33FactoryChild)
+				again.ValClass = worldgen.ValOne
+				again.GasClass = worldgen.Gas250k
+				insertAfter(again, pos+1)
+			}
+			labels = append(labels, "prefund-create-destroy")
 		case 0: // the same contract called again (storage / balance conflicts)
 			var cands []*worldgen.TxPlan
 			for _, p := range last.Txs {
@@ -1359,6 +1398,12 @@ func TestVerifC33Parallel(t *testing.T) {
 			}
 			if nonEmpty {
 				c.Class("requests:non-empty")
+			}
+		}
+		for _, a := range mirror {
+			if len(a.Bal)+len(a.Nonce)+len(a.Code) > 0 && !seq.st.Exist(a.Addr) {
+				c.Class("account-changed-then-gone")
+				break
 			}
 		}
 		failed, nlogs := 0, 0
